@@ -740,3 +740,172 @@ Proof.
     pose proof (step_outcome (fst l) s (snd l) I A) as Q. rewrite L in Q. specialize (Q LEN).
     rewrite E in Q. destruct Q as (I' & A' & L' & X'). split; auto. split; auto. split; congruence.
 Qed.
+
+(** * Library functions never lose an object's self-address *)
+Definition allwf (s : st) : Prop := forall i o, nth_error (objs s) i = Some o -> wf_obj i o = true.
+
+Lemma allwf_init ks ex : allwf (st_init ks ex).
+Proof.
+  intros i o E. unfold st_init in E. cbn [objs] in E. destruct (pool_init_nth ks 0 i o E) as (k & ->).
+  unfold wf_obj. cbn. apply Nat.eqb_refl.
+Qed.
+
+Lemma allwf_upd s i x : allwf s -> wf_obj i x = true -> allwf (set_objs s (upd (objs s) i x)).
+Proof.
+  intros A W j o E. cbn [objs set_objs] in E. rewrite nth_error_upd in E. destruct (Nat.eqb_spec i j) as [->|N]; [|auto].
+  destruct (Nat.ltb j (length (objs s))); [|discriminate]. congruence.
+Qed.
+
+Lemma allwf_objs s s' i x : allwf s -> objs s' = upd (objs s) i x -> wf_obj i x = true -> allwf s'.
+Proof.
+  intros A O W j o E. rewrite O in E. rewrite nth_error_upd in E. destruct (Nat.eqb_spec i j) as [->|N]; [|auto].
+  destruct (Nat.ltb j (length (objs s))); [|discriminate]. congruence.
+Qed.
+Lemma allwf_objs2 s s' i x j y :
+  allwf s -> objs s' = upd (upd (objs s) i x) j y -> wf_obj i x = true -> wf_obj j y = true -> allwf s'.
+Proof.
+  intros A O Wx Wy. apply (allwf_objs (set_objs s (upd (objs s) i x)) s' j y); auto. apply allwf_upd; auto.
+Qed.
+Lemma wf_uobj u o p c : wf_obj u (uobj u o p c) = true.
+Proof. unfold wf_obj. cbn. apply Nat.eqb_refl. Qed.
+
+Lemma no_stray s : allwf s -> forall i, ~ stray s i.
+Proof. intros A i (o & E & W). rewrite (A i o E) in W. discriminate. Qed.
+
+Lemma allwf_wfo s l : allwf s -> (forall i, In i l -> exists oi, nth_error (objs s) i = Some oi) -> forall i, In i l -> wfo s i.
+Proof. intros A EX i IN. destruct (EX i IN) as (oi & E). exists oi. split; auto. Qed.
+
+Section AllWf.
+  Variable ok : nat -> N -> bool.
+
+  Ltac hk H := apply has_kind_spec in H; destruct H as (? & ? & ?).
+
+  (** a pointer operation other than a stray copy keeps all objects well-formed *)
+  Lemma allwf_mstep s o s' out :
+    inv s -> allwf s -> (forall a b, o <> StrayCopy a b) -> mstep ok s o = Done s' out -> allwf s'.
+  Proof.
+    intros I A NS E. unfold mstep in E. destruct (mdom s o) eqn:D; [|discriminate].
+    assert (WFA : forall i, In i (margs o) -> wfo s i) by (apply (allwf_wfo s); auto; intros i IN; eapply margs_exist; eauto).
+    destruct o; cbn [mdom] in D; cbn [mexec margs] in *;
+      repeat match goal with H : _ && _ = true |- _ => apply andb_prop in H; destruct H end.
+    - hk H. unfold unique_init, wr_up in E. rewrite H in E. apply done_inj in E. subst s'. apply allwf_upd; auto.
+      unfold wf_obj. cbn. apply Nat.eqb_refl.
+    - hk D. destruct (unique_alloc_pool_spec ok s u x sz cb I H H0 (A u x H)) as (s1 & p & R & _ & O1 & _).
+      rewrite R in E. cbn in E. apply done_inj in E. subst s'. eapply allwf_objs; [exact A|exact O1|apply wf_uobj].
+    - unfold of_res in E. destruct (unique_get s (ASlot u)); try discriminate. apply done_inj in E. subst. auto.
+    - hk D. destruct (unique_release_pool_spec s u x I H H0 (A u x H)) as (s1 & R & _ & O1).
+      rewrite R in E. cbn in E. apply done_inj in E. subst s'. eapply allwf_objs; [exact A|exact O1|apply wf_uobj].
+    - hk H. hk H1. apply negb_true_iff, Nat.eqb_neq in H0.
+      destruct (unique_swap_spec s u v x x0 I H H1 H0 H2 H3 (A u x H) (A v x0 H1)) as (s1 & R & _ & O1).
+      rewrite R in E. cbn in E. apply done_inj in E. subst s'. eapply allwf_objs2; [exact A|exact O1|apply wf_uobj|apply wf_uobj].
+    - hk D. destruct (unique_reset_pool_spec s u x I H H0 (A u x H)) as (s1 & R & _ & O1 & _).
+      rewrite R in E. cbn in E. apply done_inj in E. subst s'. eapply allwf_objs; [exact A|exact O1|apply wf_uobj].
+    - hk H. unfold obj_reinit in E. rewrite H in E. apply done_inj in E. subst s'. apply allwf_upd; auto.
+      unfold wf_obj. cbn. apply Nat.eqb_refl.
+    - hk D. assert (K : ownerk (okind x) = true) by (rewrite H0; reflexivity).
+      destruct (shared_alloc_spec ok s s0 x sz (if cb then Some 0%nat else None) I H K (A s0 x H)) as (s1 & s2 & _ & _ & R & _ & C).
+      rewrite R in E. cbn in E. apply done_inj in E. subst s'.
+      assert (O2 : exists p, objs s2 = upd (objs s) s0 (ptr_obj s0 x p)).
+      { destruct C as [(d & m & a1 & _ & _ & _ & O2 & _)|(O2 & _)]; eauto. }
+      destruct O2 as (p & O2). eapply allwf_objs; [exact A|exact O2|apply wf_ptr_obj].
+    - unfold of_res in E. destruct (shared_get s s0); try discriminate. apply done_inj in E. subst. auto.
+    - unfold of_res in E. destruct (shared_unique s s0); try discriminate. apply done_inj in E. subst. auto.
+    - hk H. hk H0.
+      destruct (shared_share_spec s e n x x0 I H H0) as (s1 & R & _ & O1); auto; try (rewrite ?H1, ?H2; reflexivity).
+      rewrite R in E. cbn in E. apply done_inj in E. subst s'. eapply allwf_objs; [exact A|exact O1|apply wf_ptr_obj].
+    - hk H. hk H0.
+      destruct (gp_swap_spec s a b x x0 I H H0) as (s1 & R & _ & O1); auto; try congruence.
+      rewrite R in E. cbn in E. apply done_inj in E. subst s'. eapply allwf_objs2; [exact A|exact O1|apply wf_ptr_obj|apply wf_ptr_obj].
+    - hk D. assert (K : ownerk (okind x) = true) by (rewrite H0; reflexivity).
+      destruct (shared_reset_spec s s0 x I H K (A s0 x H)) as (s1 & R & _ & O1).
+      rewrite R in E. cbn in E. apply done_inj in E. subst s'. eapply allwf_objs; [exact A|exact O1|apply wf_ptr_obj].
+    - hk H. unfold obj_reinit in E. rewrite H in E. apply done_inj in E. subst s'. apply allwf_upd; auto.
+      unfold wf_obj. cbn. apply Nat.eqb_refl.
+    - hk H. hk H0.
+      destruct (weak_from_spec s w s0 x x0 I H H0) as (s1 & R & _ & O1); auto; try (rewrite ?H1, ?H2; reflexivity).
+      rewrite R in E. cbn in E. apply done_inj in E. subst s'. eapply allwf_objs; [exact A|exact O1|apply wf_ptr_obj].
+    - hk H. hk H0.
+      destruct (weak_lock_spec s w s0 x x0 I H H0) as (s1 & s2 & R & _ & _ & _ & _ & O1); auto; try (rewrite ?H1, ?H2; reflexivity).
+      rewrite R in E. cbn in E. apply done_inj in E. subst s'. eapply allwf_objs; [exact A|exact O1|apply wf_ptr_obj].
+    - hk H. hk H0.
+      destruct (gp_swap_spec s a b x x0 I H H0) as (s1 & R & _ & O1); auto; try congruence.
+      rewrite R in E. cbn in E. apply done_inj in E. subst s'. eapply allwf_objs2; [exact A|exact O1|apply wf_ptr_obj|apply wf_ptr_obj].
+    - hk D.
+      destruct (weak_reset_spec None s w x I (or_introl eq_refl) H) as (s1 & R & _ & O1); auto; try (rewrite H0; discriminate).
+      rewrite R in E. cbn in E. apply done_inj in E. subst s'. eapply allwf_objs; [exact A|exact O1|apply wf_ptr_obj].
+    - exfalso. eapply NS; eauto.
+  Qed.
+End AllWf.
+
+Lemma wf_olo i o off len : wf_obj i (olo o off len) = wf_obj i o.
+Proof. reflexivity. Qed.
+
+Section AllWfA.
+  Variable ok : nat -> N -> bool.
+
+  Ltac hk H := apply has_kind_spec in H; destruct H as (? & ? & ?).
+
+  Lemma allwf_astep s o s' out :
+    inv s -> ainv s -> 2 * N.of_nat (length (objs s)) < 4294967296 -> allwf s ->
+    astep ok false s o = Done s' out -> allwf s'.
+  Proof.
+    intros I AI LEN A E. unfold astep in E. destruct (adom s o) eqn:D; [|discriminate].
+    destruct o; cbn [adom] in D; cbn [aexec] in *;
+      repeat match goal with H : _ && _ = true |- _ => apply andb_prop in H; destruct H end.
+    - hk H. unfold obj_reinit in E. rewrite H in E. apply done_inj in E. subst s'. apply allwf_upd; auto.
+      unfold wf_obj. cbn. apply Nat.eqb_refl.
+    - hk H.
+      destruct (array_alloc_spec ok s a x nm sz I AI H H2 (A a x H) (is64_le _ H1) (is64_le _ H0)) as (s1 & p & R & _ & _ & _ & O1 & _).
+      rewrite R in E. cbn in E. apply done_inj in E. subst s'. eapply allwf_objs; [exact A|exact O1|unfold wf_obj; cbn; apply Nat.eqb_refl].
+    - hk H. destruct (nth_error (exts s) e) as [c|] eqn:Ec; [|discriminate].
+      apply andb_prop in H0. destruct H0 as (H0 & H0'). apply N.leb_le in H0.
+      destruct (array_set_spec ok s a x e nm sz c I AI H H3 (A a x H) (is64_le _ H2) (is64_le _ H1) Ec H0 (is64_le _ H0')) as (s1 & p & R & _ & _ & _ & O1).
+      rewrite R in E. cbn in E. apply done_inj in E. subst s'. eapply allwf_objs; [exact A|exact O1|unfold wf_obj; cbn; apply Nat.eqb_refl].
+    - hk D.
+      destruct (array_release_spec s a x I AI H H0 (A a x H) LEN) as (s1 & r & R & _ & _ & _ & C & _).
+      rewrite R in E. cbn in E. apply done_inj in E. subst s'. destruct r.
+      + destruct C as (O1 & _). eapply allwf_objs; [exact A|exact O1|unfold wf_obj; cbn; apply Nat.eqb_refl].
+      + subst. auto.
+    - unfold of_res in E. destruct (array_data s a); try discriminate. apply done_inj in E. subst. auto.
+    - unfold of_res in E. destruct (array_at s a i); try discriminate. apply done_inj in E. subst. auto.
+    - apply done_inj in E. subst. auto.
+    - hk H. hk H2.
+      pose proof (array_slice_spec s a t x x0 b e I AI H H2 H3 H4 (A a x H) (A t x0 H2) (is64_le _ H1) (is64_le _ H0)) as Q.
+      destruct (gp (ogp x)) as [d|].
+      + destruct Q as (D' & m & de & _ & _ & _ & Q). destruct ((e <? b) || (dnm de <? ooff x + e)).
+        * rewrite Q in E. discriminate.
+        * destruct Q as (s1 & R & _ & _ & _ & O1). rewrite R in E. cbn in E. apply done_inj in E. subst s'.
+          eapply allwf_objs; [exact A|exact O1|unfold wf_obj; cbn; apply Nat.eqb_refl].
+      + rewrite Q in E. discriminate.
+    - hk H. hk H0.
+      pose proof (array_unslice_spec s sl a x x0 I AI H H0 H1 H2 (A sl x H) (A a x0 H0)) as Q.
+      destruct (gp (ogp x)) as [d|].
+      + destruct Q as (D' & m & de & _ & _ & _ & s1 & R & _ & _ & _ & O1). rewrite R in E. cbn in E. apply done_inj in E. subst s'.
+        eapply allwf_objs; [exact A|exact O1|unfold wf_obj; cbn; apply Nat.eqb_refl].
+      + rewrite Q in E. discriminate.
+    - hk D. destruct (array_reset_spec s a x I AI H H0 (A a x H)) as (s1 & R & _ & _ & _ & O1).
+      rewrite R in E. cbn in E. apply done_inj in E. subst s'. eapply allwf_objs; [exact A|exact O1|unfold wf_obj; cbn; apply Nat.eqb_refl].
+  Qed.
+End AllWfA.
+
+(** histories that only use library functions: a stray copy is outside
+    the domain *)
+Definition lib_step (s : st) (l : oracle * op) : outcome st :=
+  match snd l with OM (StrayCopy _ _) => Precond | _ => lstep false s l end.
+
+Theorem reach_allwf ks ex s :
+  2 * N.of_nat (length ks) < 4294967296 ->
+  reach lib_step (st_init ks ex) s ->
+  allwf s /\ reach (lstep false) (st_init ks ex) s.
+Proof.
+  intros LEN R. induction R as [|s l s' out R IH E].
+  - split; [apply allwf_init|constructor].
+  - destruct IH as (A & R'). destruct (reach_sys ks ex s LEN R') as (I & AI & L & X).
+    destruct l as (okl & o). unfold lib_step in E. cbn [snd] in E.
+    assert (E' : lstep false s (okl, o) = Done s' out).
+    { destruct o as [[]|]; try discriminate; exact E. }
+    split; [|eapply reach_step; eauto]. unfold lstep in E'. cbn [fst snd] in E'.
+    destruct o as [m|ao]; cbn [step] in E'.
+    + eapply (allwf_mstep okl s m s' out I A); eauto. intros a b ->. discriminate.
+    + eapply (allwf_astep okl s ao s' out I AI); eauto. rewrite L. exact LEN.
+Qed.
